@@ -486,6 +486,12 @@ fn show_sp(l: &[Digest]) -> String {
 }
 
 fn run_succ(synthetic: bool, a: &[String]) -> String {
+    run_succ_q(synthetic, 0, a)
+}
+
+/// `q > 0`: synthetic accumulator whose peak digests and appended leafs REPEAT (index mod q): equal digests at different
+/// positions must not confuse the bookkeeping of proof generation / verification
+fn run_succ_q(synthetic: bool, q: u64, a: &[String]) -> String {
     let oldc: u64 = a[0].parse().unwrap();
     let nn: u64 = a[1].parse().unwrap();
     let tweak = a[2].as_str();
@@ -495,7 +501,9 @@ fn run_succ(synthetic: bool, a: &[String]) -> String {
     let old: MmrAccumulator;
     let base: u64;
     if synthetic {
-        sh_peaks = (0..oldc.count_ones() as u64).map(|j| atom(1000000 + j)).collect();
+        sh_peaks = (0..oldc.count_ones() as u64)
+            .map(|j| atom(1000000 + if q > 0 { j % q } else { j }))
+            .collect();
         old = MmrAccumulator::init(sh_peaks.clone(), oldc);
         base = 0;
     } else {
@@ -507,7 +515,9 @@ fn run_succ(synthetic: bool, a: &[String]) -> String {
         old = MmrAccumulator::new_from_leafs(leafs);
         base = oldc;
     }
-    let new_leafs: Vec<Digest> = (0..nn).map(|j| atom(base + j)).collect();
+    let new_leafs: Vec<Digest> = (0..nn)
+        .map(|j| if q > 0 { atom(1000000 + (j + 1) % q) } else { atom(base + j) })
+        .collect();
     for (c, l) in new_leafs.iter().enumerate() {
         shadow_append_peaks(oldc + c as u64, &mut sh_peaks, *l);
     }
@@ -821,6 +831,9 @@ fn run(op: &str, a: &[String]) -> String {
         "vfy" => run_vfy(a),
         "succ" => run_succ(false, a),
         "succs" => run_succ(true, a),
+        "succq1" => run_succ_q(true, 1, a),
+        "succq2" => run_succ_q(true, 2, a),
+        "succq3" => run_succ_q(true, 3, a),
         "syn" => run_syn(a),
         _ => "UNKNOWN-OP".to_string(),
     }
